@@ -18,7 +18,7 @@ func init() {
 		Technique:   "constant and table agreement between Go (go/constant, regexp/syntax, SSA gates of the validators) and C (clang -E -dM macros, clang AST of the named validator functions: folded comparison constants, the whitelist regexp literal, the shape of the hand-written scanners)",
 		Explanation: "Structural necessary conditions for 'all components agree on valid names' (equivalence of the hand-written C scanners with the Go rules as languages is not decided): (R1) limits agree: Go ValidateSnap refuses len<2 and len>40, the instance-key regexp allows 1..10, C has SNAP_NAME_LEN==40, SNAP_INSTANCE_KEY_LEN==10, SNAP_INSTANCE_LEN==40+1+10, and both C validators (snap-confine, snap-update-ns) compare their counters with exactly these bounds as inclusive maxima (n<2, n>40, i==0, i>10) and size their buffers accordingly; (R2) the security-tag regexp of snap-confine uses, for the instance key, the app name and the hook name, the same sub-expressions as the Go validInstanceKey, ValidApp and validHook regexps (compared after removing capture groups), and compares captured names with the expected ones by length AND content; (R3) the Go validators answer nil only across their documented gates: ValidateInstance across ValidateSnap(store name) and validInstanceKey.MatchString(key) (the ASCII-only regexp, not a Unicode-aware hand test), ValidateSnap across the two length tests and isValidName, isValidName across almostValidName and the dash rules; (R4) both C name scanners add every consumed run (letters, digits, single dash) to the length they bound.",
 		NotDecided:  "that the hand-written C scanners accept exactly the language of the Go regexp-plus-dash rules; security-tag composition for components; socket and alias names.",
-		Run:         runC24,
+		Run:         func(c *Ctx) { runC24(c); runC24x(c) },
 	})
 }
 
@@ -159,7 +159,7 @@ func runC24(c *Ctx) {
 		c.Check(okBuf, "bootstrap.c:validate_instance_name#buffer", token.NoPos, "char[53] = 40+1+10+2", "the copy buffer of validate_instance_name is no longer 53 bytes (40 + '_' + 10 + overflow + NUL): longer valid names are truncated before validation or over-long ones slip through")
 	}
 
-	c.Rule("C24-R2", "K", "snap-confine's security-tag regexp uses the Go sub-expressions for instance key, app and hook names; captured names are compared by length and content", 5)
+	c.Rule("C24-R2", "K", "snap-confine's security-tag regexp uses the Go sub-expressions for instance key, app and hook names; captured names are compared by length and content", 6)
 	if fn, err := CFunc(repo, "cmd/libsnap-confine-private/snap.c", "sc_security_tag_validate"); err != nil {
 		c.Undecided("snap.c:sc_security_tag_validate", token.NoPos, err.Error())
 	} else {
@@ -186,6 +186,11 @@ func runC24(c *Ctx) {
 						continue
 					}
 					c.Check(strings.Contains(whole, body), "snap.c:sc_security_tag_validate#"+g.what, token.NoPos, "contains the Go sub-expression "+body, fmt.Sprintf("the %s part of snap-confine's security-tag regexp (%s) no longer contains the Go %s expression %s: the two sides accept different %ss", g.what, whole, g.goVar, body, g.what))
+				}
+				// component names have the restrictions of snap names: the snap-name expression occurs twice
+				if sn, err := syntax.Parse("[a-z0-9](-?[a-z0-9])*", syntax.Perl); err == nil {
+					body := normRe(sn)
+					c.Check(strings.Count(whole, body) >= 2, "snap.c:sc_security_tag_validate#component-like-snap-name", token.NoPos, "the component part uses the snap-name expression "+body, fmt.Sprintf("snap-confine's security-tag regexp (%s) does not use the snap-name expression %s for both the snap and the component part: hook tags of components that the daemon (and sc_snap_component_validate) accept are refused", whole, body))
 				}
 				c.Check(tre.Op == syntax.OpConcat && tre.Sub[0].Op == syntax.OpBeginText && tre.Sub[len(tre.Sub)-1].Op == syntax.OpEndText, "snap.c:sc_security_tag_validate#anchored", token.NoPos, "anchored at both ends", "the security-tag regexp is not anchored at both ends")
 			}
